@@ -160,8 +160,8 @@ def run(ctx):
             nfresh += 1
             ctx.ob("C04.R0", fi, not missing, "every freshly allocated name the generated code refers to is defined by a block appended in the same emitter run%s" % ((": undefined " + ", ".join(sorted(missing))) if missing else ""), key="fresh names defined")
     ctx.extra["emitters_with_fresh_names"] = nfresh
-    if nfresh < 18:
-        ctx.error("C04.R0: only %d emitters use freshly allocated names, floor 18" % nfresh)
+    if nfresh < 15:
+        ctx.error("C04.R0: only %d emitters use freshly allocated names, floor 15" % nfresh)
     ctx.floor("C04.R0", 88)
 
     # ---------------------------------------------------------------- R1 repr discipline
